@@ -310,6 +310,11 @@ impl Scenario for Count {
                 );
             }
         }
+        // A plain slice (possibly truncated) delivers exactly what it consumes, also when a read
+        // fails: "count() vs original_len - remaining_len of the wrapped slice".
+        if matches!(src.base, Base::Slice | Base::Cursor) && src.base == Base::Slice && delivered != taken as u64 {
+            return viol("c19.count_vs_consumed", format!("{}: bytes {} source {}: CountedInput reports {} (= bytes delivered by successful reads) but the wrapped slice advanced by {} (decode {})", s.name, hex_short(&bytes), src.describe(), delivered, taken, class));
+        }
         if out.res.is_ok() && !rep.trace.any_error_fault_fired() && delivered != taken as u64 {
             return viol("c19.count_vs_consumed", format!("{}: bytes {} source {}: delivered {} but base position advanced by {}", s.name, hex_short(&bytes), src.describe(), delivered, taken));
         }
